@@ -1,6 +1,7 @@
 package main
 
 import (
+	"sort"
 	"fmt"
 	"go/token"
 	"go/types"
@@ -93,6 +94,10 @@ func ruleR02a(c *Ctx, rule string) {
 				key := fnName(fn) + ":" + what + ":under-lock"
 				if lockFns[fn] {
 					obl.expect(key, ci.Pos(), "executed in a function that holds the account lock (state checked by the lock-span machine)")
+				} else if by := calledOnlyFromLockFns(c, fn, lockFns, 0); by != "" {
+					// a phase of the locked function (`e.runMachine(…)` called by `run`, which takes the lock): the lock-span
+					// machine of the caller steps through it with the lock state
+					obl.expect(key, ci.Pos(), "executed in a helper that only "+by+" calls, with the account lock held (checked inline by the lock-span machine)")
 				} else {
 					obl.violate(key, ci.Pos(), what+" is called in a function that never takes the account lock: balances are read / a script is executed without excluding concurrent spenders", nil)
 				}
@@ -102,6 +107,40 @@ func ruleR02a(c *Ctx, rule string) {
 	if nCrit < 2 {
 		obl.undecided("floor:critical-sites", token.NoPos, fmt.Sprintf("expected the production call sites of ResolveBalances and vm.Run, found %d", nCrit))
 	}
+}
+
+// calledOnlyFromLockFns: fn is a function of package command whose every call site lies in a function that takes the
+// account lock, or in another such helper (depth 2). Returns the callers' names, or "".
+func calledOnlyFromLockFns(c *Ctx, fn *ssa.Function, lockFns map[*ssa.Function]bool, depth int) string {
+	if fnPkgPath(origin(fn)) != pkgCommand || depth > 2 {
+		return ""
+	}
+	var names []string
+	n := 0
+	for _, site := range c.CallersOf(fn) {
+		p := site.Parent()
+		if p == nil || (p.Synthetic != "" && !strings.HasPrefix(p.Synthetic, "instance of")) {
+			continue
+		}
+		if strings.HasSuffix(c.Fset.Position(site.Pos()).Filename, "_test.go") {
+			continue
+		}
+		n++
+		if lockFns[p] {
+			names = append(names, origName(p))
+			continue
+		}
+		if by := calledOnlyFromLockFns(c, p, lockFns, depth+1); by != "" {
+			names = append(names, origName(p))
+			continue
+		}
+		return ""
+	}
+	if n == 0 {
+		return ""
+	}
+	sort.Strings(names)
+	return strings.Join(dedupStrings(names), ", ")
 }
 
 func lockSpanMachine(c *Ctx, m *cmdModel, obl *oblSet, fn *ssa.Function, lockCall *ssa.Call) {
@@ -146,7 +185,47 @@ func lockSpanMachine(c *Ctx, m *cmdModel, obl *oblSet, fn *ssa.Function, lockCal
 		}
 		return (s &^ lkHELD) | lkRELEASED
 	}
+	// phases of the locked function that contain a critical operation are stepped through with the lock state
+	hasCritical := map[*ssa.Function]int{}
+	var critIn func(g *ssa.Function, depth int) bool
+	critIn = func(g *ssa.Function, depth int) bool {
+		if st, ok := hasCritical[g]; ok {
+			return st == 1
+		}
+		hasCritical[g] = 2
+		found := false
+		allCalls(g, func(ci ssa.CallInstruction) {
+			if m.vmCritical(c, ci) != "" {
+				found = true
+			}
+			if h := staticCallee(ci); h != nil && depth < 2 && fnPkgPath(origin(h)) == pkgCommand && len(h.Blocks) > 0 && h != g {
+				if critIn(h, depth+1) {
+					found = true
+				}
+			}
+		})
+		if found {
+			hasCritical[g] = 1
+		}
+		return found
+	}
 	rulePR := &PathRule{
+		Inline: func(call ssa.CallInstruction) []*ssa.Function {
+			g := staticCallee(call)
+			if g == nil || fnPkgPath(origin(g)) != pkgCommand || len(g.Blocks) == 0 || g == fn {
+				return nil
+			}
+			if cl, ok := call.(*ssa.Call); ok {
+				if _, _, isAppend := m.appendCall(c, cl); isAppend {
+					return nil
+				}
+			}
+			if critIn(g, 0) {
+				return []*ssa.Function{g}
+			}
+			return nil
+		},
+		MaxDepth: 3,
 		DeferID: func(d *ssa.Defer) int {
 			if isRelease(&d.Call) {
 				return 0
@@ -214,6 +293,9 @@ func lockSpanMachine(c *Ctx, m *cmdModel, obl *oblSet, fn *ssa.Function, lockCal
 			return s, true
 		},
 		Exit: func(pc *PathCtx, s uint64, ins ssa.Instruction) {
+			if pc.parent != nil {
+				return
+			}
 			if _, isRet := ins.(*ssa.Return); isRet && s&lkHELD != 0 {
 				obl.violate(name+":released-on-every-exit", ins.Pos(), "a path returns with the account lock still held", pc.Trail())
 			}
